@@ -156,6 +156,8 @@ package jlib
 //@   requires f != nil && ifaceable(v)
 //@   ensures [C15:error-has-no-result] r1 != nil ==> r0 == nil
 //@   ensures [C15:list-result] r1 == nil ==> typeis(r0, "[]interface {}")
+//@   ensures [C15:called-once-per-member] r1 == nil ==> calls("iface:Call#0") == (arrKind(kind(ret("forceArray#0", 0))) ? rvlen(ret("forceArray#0", 0)) : 0)
+//@   loop 0 invariant calls("iface:Call#0") == i && v == ret("forceArray#0", 0) && i <= (arrKind(kind(v)) ? rvlen(v) : 0)
 //@   atcall[C15:value-index-array-trimmed-to-arity] iface:Call#0 requires callee_recv == f && len(callee_arg1) == argc && 1 <= argc && argc <= 3
 //@   atif[C15:absent-results-dropped] "res.IsValid()" iff valid(ret("iface:Call#0", 0))
 //@   loop 0 invariant 0 <= i && !wraps(v) && (valid(v) ==> (arrKind(kind(v)) && canif(v))) && 1 <= argc && argc <= 3
@@ -165,6 +167,8 @@ package jlib
 //@   requires f != nil && ifaceable(v)
 //@   ensures [C15:error-has-no-result] r1 != nil ==> r0 == nil
 //@   ensures [C15+C09:always-a-list] r1 == nil ==> typeis(r0, "[]interface {}")
+//@   ensures [C15:called-once-per-member] r1 == nil ==> calls("iface:Call#0") == (arrKind(kind(ret("forceArray#0", 0))) ? rvlen(ret("forceArray#0", 0)) : 0)
+//@   loop 0 invariant calls("iface:Call#0") == i && v == ret("forceArray#0", 0) && i <= (arrKind(kind(v)) ? rvlen(v) : 0)
 //@   atcall[C15:value-index-array-trimmed-to-arity] iface:Call#0 requires callee_recv == f && len(callee_arg1) == argc && 1 <= argc && argc <= 3 && callee_arg1[0] == item
 //@   atif[C15:truthy-members-kept] "Boolean(res)" iff ufb_truthy(ret("iface:Call#0", 0))
 //@   loop 0 invariant 0 <= i && !wraps(v) && (valid(v) ==> (arrKind(kind(v)) && canif(v))) && 1 <= argc && argc <= 3
@@ -173,7 +177,10 @@ package jlib
 //@   requires f != nil && ifaceable(v)
 //@   ensures [C15:needs-two-parameter-function] ret("iface:ParamCount#0", 0) != 2 ==> r1 != nil
 //@   ensures [C15:error-has-no-result] r1 != nil ==> r0 == nil
-//@   loop 0 invariant 0 <= i && !wraps(v) && (valid(v) ==> (arrKind(kind(v)) && canif(v))) && err == nil
+//@   ensures [C15:left-fold-calls-the-function-once-per-remaining-member] r1 == nil ==> calls("iface:Call#0") == (arrKind(kind(ret("forceArray#0", 0))) ? rvlen(ret("forceArray#0", 0)) : 0) - ((!init.isSet && arrKind(kind(ret("forceArray#0", 0))) && rvlen(ret("forceArray#0", 0)) > 0) ? 1 : 0)
+//@   atcall[C15:accumulator-then-member] iface:Call#0 requires callee_recv == f && len(callee_arg1) == 2 && callee_arg1[0] == res && callee_arg1[1] == at(v, i)
+//@   loop 0 invariant 0 <= i && !wraps(v) && (valid(v) ==> (arrKind(kind(v)) && canif(v))) && err == nil && v == ret("forceArray#0", 0)
+//@   loop 0 invariant calls("iface:Call#0") == i - ((!init.isSet && arrKind(kind(v)) && rvlen(v) > 0) ? 1 : 0) && i <= (arrKind(kind(v)) ? rvlen(v) : 0)
 //@ func Single
 //@   props C15 C09
 //@   requires f != nil && ifaceable(v)
@@ -476,11 +483,13 @@ package jlib
 //@   props C14 C09
 //@   requires fn != nil && kind(v) == 21 && canif(v)
 //@   ensures r1 != nil ==> len(r0) == 0
+//@   ensures [C14:one-call-per-member] r1 == nil ==> calls("iface:Call#0") == rvlen(v)
+//@   loop 0 invariant calls("iface:Call#0") == $i0 + 1
 //@   loop 0 calls [C14:every-member-visited-once] iface:Call#0
 //@   atcall[C14:value-name-object-trimmed-to-arity] iface:Call#0 requires callee_recv == fn && arr(callee_arg1) == arr(argv) && len(callee_arg1) == len(argv) && (len(argv) >= 1 ==> argv[0] == mapat(v, k)) && (len(argv) >= 2 ==> argv[1] == k) && (len(argv) >= 3 ==> argv[2] == v)
 //@   atif[C14:absent-results-dropped] "res.IsValid()" iff valid(ret("iface:Call#0", 0))
 //@   loop 0 invariant -1 <= $i0 && alloc(argv)
-//@   loop 1 invariant -1 <= $i1 && alloc(argv) && ($i1 >= 0 ==> argv[0] == mapat(v, k)) && ($i1 >= 1 ==> argv[1] == k) && ($i1 >= 2 ==> argv[2] == v)
+//@   loop 1 invariant -1 <= $i1 && alloc(argv) && ($i1 >= 0 ==> argv[0] == mapat(v, k)) && ($i1 >= 1 ==> argv[1] == k) && ($i1 >= 2 ==> argv[2] == v) && calls("iface:Call#0") == $i0 + 1
 //@ func eachStruct
 //@   props C14 C09
 //@   requires fn != nil && kind(v) == 25 && canif(v)
@@ -559,6 +568,8 @@ package jlib
 //@ func Spread
 //@   props C14 C09
 //@   requires ifaceable(v)
+//@   ensures [C14:one-object-per-member] (kind(res(v)) == 21 && valid(v) && r1 == nil) ==> (typeis(r0, "[]interface {}") && len(dyn(r0, "[]interface {}")) == rvlen(res(v)))
+//@   loop 0 invariant -1 <= $i0 && len(results) == $i0 + 1 && len(keys) == rvlen(res(old(v))) && v == res(old(v)) && canif(v) && kind(v) == 21
 
 // --- C09: the remaining built-in functions: total on every argument the signature validation lets through ---------------------
 //@ func Not
@@ -580,12 +591,17 @@ package jlib
 //@ func FormatNumber
 //@   props C09 C18
 //@   requires ifaceable(options.Value)
+//@   requires [picture-shorter-than-1GiB] len(picture) <= 1073741824
 //@ func newDecimalFormat
 //@   props C09 C18
 //@   requires kind(opts) == 21 && canif(opts)
+//@   ensures [C18+C09:separators-and-digits-are-code-points] r1 == nil ==> fmtOKv(r0)
+//@   loop 0 invariant -1 <= $i0 && fmtOKv(format)
 //@ func updateDecimalFormat
 //@   props C09 C18
-//@   requires format != nil
+//@   requires fmtOK(format)
+//@   ensures [C18+C09:separators-and-digits-are-code-points] fmtOK(format)
+//@   assigns deref(format)
 //@ func FormatBase
 //@   props C09 C18
 //@ func Base64Encode
